@@ -2,6 +2,7 @@
 package html
 
 import (
+	"bytes"
 	"strconv"
 
 	"github.com/tdewolff/parse/v2"
@@ -537,6 +538,8 @@ func (l *Lexer) shiftEndTag() []byte {
 	for n < len(data) {
 		if c := data[n]; c == ' ' || c == '>' || c == '/' || c == '\t' || c == '\n' || c == '\r' || c == '\f' {
 			break
+		} else if 0 < len(l.tmplBegin) && bytes.HasPrefix(data[n:], l.tmplBegin) {
+			break // a template is not part of the name
 		}
 		n++
 	}
